@@ -84,6 +84,9 @@ MUTANTS = [
      "        await self.async_check_service(info, allow_name_change, cooperating_responders, strict)\n",
      "        info.set_server_if_missing()\n"
      "        await self.async_check_service(info, allow_name_change, cooperating_responders, strict)\n"),
+    ("c18-only-last-added-record-loaded", "C18", "_services/info.py",
+     "                cache.get_all_by_details(self._name, type_, _CLASS_IN),\n",
+     "                cache.get_all_by_details(self._name, type_, _CLASS_IN)[-1:],\n"),
     ("c10-kept-query-keeps-old-ttl", "C10", "_services/browser.py",
      "                current.ttl = int(pointer.ttl) if isinstance(pointer.ttl, float) else pointer.ttl\n"
      "                current.expire_time_millis = pointer.get_expiration_time(100)\n", ""),
